@@ -71,7 +71,7 @@ def configure(p):
             ntext[0] += 1
             if ntext[0] <= P.get("ntext", 99):
                 EDITS.append((pa, "text"))
-        if n.is_inline and "em" in sch.marks:
+        if "em" in sch.marks and (n.is_inline or C.schema_name == "docmarks"):
             EDITS.append((pa, "mark"))
         if n.type.name == "heading":
             EDITS.append((pa, "attr"))
@@ -178,7 +178,7 @@ def obligations(tier, seed):
     obs = []
     if tier == "quick":
         parts = [{"schema": "list", "doc": 7}, {"schema": "list", "doc": 1}, {"schema": "list", "doc": 3},
-                 {"schema": "basic", "doc": 1}]
+                 {"schema": "basic", "doc": 1}, {"schema": "docmarks", "doc": 0}]
         kmax = 2
     else:
         parts = common.doc_partitions(["list", "basic", "iso", "table", "strict"], tier)
